@@ -43,6 +43,11 @@ def worker(job):
             kw = {"tables": opts.get("tables", 1), "consume_input": opts.get("consume_input", True)}
             if opts.get("lexdis") is not None:
                 kw["lexical_disambiguation"] = opts["lexdis"]
+            if sum(map(ord, gname)) % 2 == 0:
+                # GLRParser's default, spelled out (half of the grammars): giving one of the two
+                # strategy options explicitly must not change the other's default
+                kw["prefer_shifts"] = False
+                out["explicit_prefer_shifts_false"] = True
             with impl.quiet():
                 p = GLRParser(g, **kw)
     except BaseException as e:  # noqa
